@@ -21,6 +21,22 @@ def handleOps (op : String) (args impl : List String) : Verdict :=
         | some (ys, []) => if decide (Spec.WF xs) then ys == Spec.addSpec d xs else true
         | _ => false
     | _, _ => .bad "ops.add: parse"
+  | "ops.cli", kind :: par :: rest =>
+    -- one operation through the command-line tool on a SubRip file: what comes out is the model's result
+    match par.toInt?, decItems rest with
+    | some p, some (xs, []) =>
+      let r : Option (List Item) :=
+        if kind = "frag" then some (Ops.fragment p xs)
+        else if kind = "unfrag" then some (Ops.unfragment xs)
+        else if kind = "add" then some (Ops.add p xs)
+        else none
+      match r with
+      | none => .bad "ops.cli: kind"
+      | some ys =>
+        let m := " ".intercalate (toString ys.length :: ys.map fun it =>
+          s!"{it.startAt},{it.endAt},{encStr ("\n".intercalate (it.lines.map lineStr))}")
+        compare m (joinToks impl) fun _ => false
+    | _, _ => .bad "ops.cli: parse"
   | "ops.add2", d1 :: d2 :: _spare :: rest =>
     match d1.toInt?, d2.toInt?, decItems rest with
     | some d1, some d2, some (xs, []) =>
